@@ -7,7 +7,11 @@ from audiolazy import MultiKeyDict, StrategyDict
 
 ID = "C15"
 RULE = ("histories = lists of plain-data steps (set single key / set key tuple / delete / "
-        "lookup / construct from dict; StrategyDict: item and decorator stores, item and "
+        "delete by a key tuple (the tuple a group currently has, stale, partial, re-ordered or "
+        "re-spelled ones: never a key, so KeyError and nothing changes) / assignment of an "
+        "unhashable value (refused; the history goes on) / "
+        "lookup / construct from dict; StrategyDict: item and decorator stores, refused "
+        "stores of unhashable strategies, item and "
         "attribute deletes, calls); exhaustive over 3 keys x 2 values up to a bounded "
         "length plus Hypothesis histories over larger universes (hash-equal key and value "
         "spellings, duplicate keys in tuples); oracle = mkd_model (ordered groups) compared "
@@ -16,6 +20,8 @@ RULE = ("histories = lists of plain-data steps (set single key / set key tuple /
         "value; distinct = distinct case hash")
 ASSUMPTIONS = [
   "keys and values are hashable and compared with ==, so 1, 1.0 and True are one key / one value",
+  "an unhashable value cannot be stored (the map is invertible): such an assignment is expected to raise TypeError, and, being no assignment, to leave a MultiKeyDict as it was",
+  "a StrategyDict releases the names an assignment overwrites before it stores; when the store is then refused the check accepts both outcomes per overwritten name (still bound to its old strategy, or released like by del) and requires everything else of the statement: the refused object is nowhere, the default is the first strategy really stored (unset once it has lost all its names)",
   "lookups use scalar keys (a tuple passed to d[...] addresses the stored tuple itself, documented as an IPython work-around)",
   "StrategyDict names are strings (two of them, copy and keys, shadow dict methods on purpose); attributes and the default are never assigned manually",
 ]
@@ -110,6 +116,42 @@ def compare(d, m, universe, values, ctx):
       raise Violation("value2keys(%r)=%r, model %r %s" % (v, d.value2keys(v), exp, ctx))
 
 
+RESPELL = {"1": 1.0, "1.0": True, "True": 1}     # by repr: 1 == 1.0 == True is one dict key
+
+
+class _NoHash(object):
+  """A callable with value equality and therefore without a hash."""
+  __hash__ = None
+
+  def __init__(self, i):
+    self.i = i
+
+  def __call__(self, *a, **kw):
+    return ("never stored", self.i, a)
+
+  def __eq__(self, o):
+    return isinstance(o, _NoHash) and o.i == self.i
+
+  def __ne__(self, o):
+    return not self == o
+
+  def __repr__(self):
+    return "NoHash(%d)" % self.i
+
+
+class _ListStrategy(list):
+  """A callable that is a list (like CascadeFilter / ParallelFilter): not hashable."""
+  def __call__(self, *a, **kw):
+    return ("never stored list", list(self), a)
+
+
+UNHASHABLE = ["callable with __eq__ and no __hash__", "callable list", "list", "dict"]
+
+
+def unhashable(kind, i):
+  return [_NoHash(i), _ListStrategy([i]), [i], {"i": i}][kind]
+
+
 def step_mkd(d, m, op):
   """Apply one op to both; returns label facts."""
   e1 = e2 = None
@@ -127,10 +169,37 @@ def step_mkd(d, m, op):
       facts.add("merge-by-equal-value")
     d[key] = value
     m.set(key, value)
+  elif op[0] == "deltup":
+    # deletion by the key tuple the group of op[1] has right now (what keys(), key2keys(k) and
+    # value2keys(v) hand out; (k,) for a key that is not there): a tuple is not one of the keys
+    g = m.find(op[1])
+    t = tuple(g[1]) if g is not None else (op[1],)
+    if len(op) > 2 and op[2]:
+      t = tuple(RESPELL.get(repr(k), k) for k in t)     # equal and hash-equal, spelled differently
+    facts.add("delete-by-stored-tuple" if g is not None else "delete-by-tuple-of-missing-key")
+    facts.add("delete-by-tuple")
+    try:
+      del d[t]
+    except KeyError:
+      e1 = "KeyError"
+    e2 = "KeyError"
+  elif op[0] == "set-refused":
+    bad = unhashable(op[2], 1)
+    facts.add("refused-assignment")
+    try:
+      d[op[1]] = bad
+    except TypeError:
+      pass
+    else:
+      raise Violation("op %r: the unhashable value %r was accepted" % (op, bad))
   elif op[0] == "del":
     g = m.find(op[1])
     if g is not None:
       facts.add("delete-last-key" if len(g[1]) == 1 else "shared")
+    if isinstance(op[1], tuple):
+      facts.add("delete-by-tuple")
+      if any(tuple(x[1]) == op[1] for x in m.groups):
+        facts.add("delete-by-stored-tuple")
     try:
       del d[op[1]]
     except KeyError:
@@ -158,7 +227,8 @@ def step_mkd(d, m, op):
 K = ["a", "b", "c"]
 V = [1, 2]
 _keyargs = list(K) + [(a, b) for a in K for b in K]
-OPS = [("set", k, v) for k in _keyargs for v in V] + [("del", k) for k in K]
+OPS = ([("set", k, v) for k in _keyargs for v in V] + [("del", k) for k in K]
+       + [("deltup", k) for k in K])      # del d[d.key2keys(k)] (del d[(k,)] when k is not there)
 
 
 def ex_cases(tier, shard, nshards):
@@ -198,7 +268,7 @@ VALS = [1, 1.0, 2, "x", True, None]
 
 
 def strat_mkd(tier):
-  maxlen = 16 if tier == "quick" else 40
+  maxlen = 19 if tier == "quick" else 46
   key = st.sampled_from(SCALAR_KEYS)
   val = st.sampled_from(VALS)
   op = st.one_of(
@@ -207,9 +277,24 @@ def strat_mkd(tier):
     st.tuples(st.just("set"), st.lists(key, min_size=1, max_size=3).map(tuple), val),
     st.tuples(st.just("del"), key),
     st.tuples(st.just("get"), key),
+    # operations that fail and must change nothing (one alternative of six as a group: .map keeps
+    # one_of from flattening it into the list above)
+    st.one_of(
+      # deletions by a tuple: the one a group has now (possibly re-spelled 1 / 1.0 / True), or any tuple
+      # (one-element tuples of lone keys, stale, partial and re-ordered ones)
+      st.tuples(st.just("deltup"), key, st.booleans()),
+      st.tuples(st.just("deltup"), key, st.booleans()),
+      st.tuples(st.just("del"), st.lists(key, min_size=1, max_size=3).map(tuple)),
+      # an assignment the map has to refuse (unhashable value), to one key or a key tuple
+      st.tuples(st.just("set-refused"), st.one_of(key, st.lists(key, min_size=1, max_size=3).map(tuple)),
+                st.integers(0, len(UNHASHABLE) - 1)),
+    ).map(tuple),
   )
   init = st.one_of(st.none(), st.lists(st.tuples(key, val), max_size=4))
-  return st.fixed_dictionaries(dict(init=init, ops=st.lists(op, max_size=maxlen)))
+  # (half of the histories have at least 4 steps: every prefix is compared, and the failing operations
+  # above must not thin out the overwrites and merges per history)
+  return st.fixed_dictionaries(dict(init=init, ops=st.one_of(st.lists(op, max_size=maxlen),
+                                                             st.lists(op, min_size=4, max_size=maxlen))))
 
 
 def run_mkd(case):
@@ -243,7 +328,7 @@ NF = 4
 
 
 def strat_sd(tier):
-  maxlen = 14 if tier == "quick" else 36
+  maxlen = 16 if tier == "quick" else 40
   name = st.sampled_from(NAMES)
   names = st.lists(name, min_size=1, max_size=3).map(tuple)
   f = st.integers(0, NF - 1)
@@ -259,9 +344,19 @@ def strat_sd(tier):
     st.tuples(st.just("hand"), name, st.integers(0, 2)),
     # ... directly followed by the loss of that name's item (deleted, or assigned another strategy)
     st.tuples(st.just("hand then lose"), name, st.integers(0, 2), st.one_of(st.none(), f)),
+    # operations that fail (one alternative of nine as a group: .map keeps one_of from flattening it)
+    st.one_of(
+      # a store the map has to refuse: the strategy is not hashable (item assignment to a name tuple / one
+      # bare name, or the decorator); the caller catches the TypeError and the history goes on
+      st.tuples(st.just("refused"), names, st.integers(0, len(UNHASHABLE) - 1),
+                st.sampled_from(["item", "bare name", "decorator", "decorator keep_name"])),
+      # deletion by the name tuple a strategy has right now: a tuple is not a name
+      st.tuples(st.just("deltup"), name),
+    ).map(tuple),
   )
   # pool: how many of the names the history uses (a small pool makes histories revisit the same name)
-  return st.fixed_dictionaries(dict(named=st.booleans(), ops=st.lists(op, max_size=maxlen),
+  return st.fixed_dictionaries(dict(named=st.booleans(),
+                                    ops=st.one_of(st.lists(op, max_size=maxlen), st.lists(op, min_size=4, max_size=maxlen)),
                                     pool=st.sampled_from([2, 3, 7, 7]),
                                     values=st.sampled_from(["functions", "functions", "bound methods", "falsy callables"])))
 
@@ -360,7 +455,7 @@ def run_sd(case):
     if o[0] == "hand then lose":
       ops.append(("hand", nm(o[1]), o[2]))
       ops.append(("del", nm(o[1])) if o[3] is None else ("set1", nm(o[1]), o[3]))
-    elif o[0] in ("set", "deco"):
+    elif o[0] in ("set", "deco", "refused"):
       ops.append((o[0], tuple(nm(x) for x in o[1])) + tuple(o[2:]))
     elif o[0] == "call":
       ops.append(tuple(o))
@@ -383,6 +478,50 @@ def run_sd(case):
       if not keep and f.__name__ != op[1][0]:
         raise Violation("decorated function is named %r, expected %r %s" % (f.__name__, op[1][0], ctx))
       mset(op[1], op[2])
+    elif op[0] == "refused":
+      bad = unhashable(op[2], n)
+      keep = op[3] == "decorator keep_name" or not hasattr(bad, "__dict__")   # no writable __name__ there
+      facts.add("refused store")
+      names = op[1][:1] if op[3] == "bare name" else op[1]
+      live = [k for k in dict.fromkeys(names) if m.find(k) is not None]
+      try:
+        if op[3] == "item":
+          sd[names] = bad
+        elif op[3] == "bare name":
+          sd[names[0]] = bad
+        else:
+          sd.strategy(*names, keep_name=keep)(bad)
+      except TypeError:
+        pass
+      else:
+        raise Violation("the unhashable strategy %r was accepted by %r %s" % (bad, op, ctx))
+      # The statement does not say whether the names that were about to be overwritten keep their old
+      # strategy; each of them either does or has been released as by del (and a default that lost all
+      # its names this way is gone). Everything else is compared below as after any other step.
+      for k in live:
+        try:
+          sd[k]
+        except KeyError:
+          had_hand = k in hand
+          mdelete(k)
+          facts.add("refused store released an overwritten name")
+          if had_hand:
+            facts.add("item deleted under a hand-made attribute")
+      if default[0] is None:
+        facts.add("no default after a refused store")
+      for where, x in [("attribute", x) for x in vars(sd).values()] + [("item", x) for x in dict.values(sd)]:
+        if x is bad:
+          raise Violation("the refused strategy %r is kept as %s %s" % (bad, where, ctx))
+    elif op[0] == "deltup":
+      g = m.find(op[1])
+      t = tuple(g[1]) if g is not None else (op[1],)
+      facts.add("delete-by-tuple")
+      try:
+        del sd[t]
+      except KeyError:
+        pass
+      else:
+        raise Violation("del sd[%r] (a tuple, not a name) did not raise KeyError %s" % (t, ctx))
     elif op[0] == "hand":
       setattr(sd, op[1], ("by hand", op[2]))
       hand[op[1]] = ("by hand", op[2])
@@ -456,12 +595,17 @@ def run_sd(case):
 
 CLAUSES = [
   Enumerated("mkd_exhaustive", ex_cases, run_ex, shards={"quick": 16, "thorough": 64},
-             doc="every history up to length 4 (quick) / 5 (thorough) over 27 ops on keys a,b,c and values 1,2"),
+             floors={"delete-by-stored-tuple": .1},
+             doc="every history up to length 4 (quick) / 5 (thorough) over 30 ops on keys a,b,c and values 1,2 (assignments to a key / a key pair, deletion of a key, deletion by the key tuple a key's group has at that moment)"),
   Clause("mkd_histories", strat_mkd, run_mkd, quick=4000, thorough=60000, fuzz={"thorough": 80000},
-         floors={"shared": .2, "merge-by-equal-value": .2, "overwrite": .2, "delete-last-key": .03},
-         doc="random histories over hash-equal key/value spellings, tuple keys with duplicates, construction from a dict"),
+         floors={"shared": .2, "merge-by-equal-value": .2, "overwrite": .2, "delete-last-key": .03,
+                 "delete-by-stored-tuple": .12, "refused-assignment": .15},
+         doc="random histories over hash-equal key/value spellings, tuple keys with duplicates, construction from a dict, "
+             "deletions by key tuples and refused (unhashable-value) assignments in between"),
   Clause("strategydict", strat_sd, run_sd, quick=3000, thorough=40000, fuzz={"thorough": 80000},
          floors={"shared": .15, "default re-chosen": .03, "merge-by-equal-value": .15,
-                 "attribute replaced by hand": .2, "item deleted under a hand-made attribute": .03},
-         doc="StrategyDict: items == attributes, default selection and re-selection, call dispatch"),
+                 "attribute replaced by hand": .2, "item deleted under a hand-made attribute": .03,
+                 "refused store": .2, "no default after a refused store": .12},
+         doc="StrategyDict: items == attributes, default selection and re-selection (a refused store of an unhashable "
+             "strategy chooses nothing), call dispatch"),
 ]
